@@ -919,9 +919,15 @@ class Engine:
                     for x in rows:
                         if x in missing:
                             missing.remove(x)
-                    if has_fc and missing and len(missing) + len(rows) == len(want_rows) and \
-                            all(x == (0, "commit") for x in missing) and [x for x in want_rows if x != (0, "commit")] == \
-                            [x for x in rows if x != (0, "commit")]:
+                    skipped, it = [], iter(rows)
+                    nxt = next(it, None)
+                    for x in want_rows:
+                        if nxt is not None and x == nxt:
+                            nxt = next(it, None)
+                        else:
+                            skipped.append(x)
+                    if has_fc and nxt is None and skipped and all(x[1] == "commit" for x in skipped) and \
+                            len(skipped) + len(rows) == len(want_rows):
                         # several rules asked for an intermediate commit in one patch: the equal 'commit' rows share one path
                         v = V("stream-differs-from-shown-patch", "force-commit-rows-collapsed", step=step, device=d.hostname,
                               shown=sh, sent=rows, expected=want_rows)
